@@ -279,15 +279,23 @@ func (e *Expression) evaluate(res fhir.Resource, options ...fhirpath.EvaluateOpt
 // patched. Navigation enters a `contained` entry (a google.protobuf.Any) through
 // an unpacked copy, so a patch whose target lies inside a contained resource has
 // changed that copy; marshal every copy that no longer equals its source back
-// into the Any it was unpacked from.
+// into the Any it was unpacked from. A contained resource may itself hold
+// contained entries: writing an inner entry back changes the copy of the outer
+// one, so passes are repeated until a pass changes nothing (the map is ranged
+// in no particular order; each pass settles at least one level of nesting, so
+// one pass per entry and one more are enough).
 func repackContained(ctx *expr.Context) error {
-	for anyMsg, unpacked := range ctx.Contained {
-		current := &bcrpb.ContainedResource{}
-		if err := anyMsg.UnmarshalTo(current); err == nil && proto.Equal(current, unpacked) {
-			continue
-		}
-		if err := anyMsg.MarshalFrom(unpacked); err != nil {
-			return err
+	for pass, changed := 0, true; changed && pass <= len(ctx.Contained); pass++ {
+		changed = false
+		for anyMsg, unpacked := range ctx.Contained {
+			current := &bcrpb.ContainedResource{}
+			if err := anyMsg.UnmarshalTo(current); err == nil && proto.Equal(current, unpacked) {
+				continue
+			}
+			if err := anyMsg.MarshalFrom(unpacked); err != nil {
+				return err
+			}
+			changed = true
 		}
 	}
 	return nil
